@@ -73,7 +73,7 @@ pub fn encode_t(v: &RV, s: &RS, defs: &Defs, out: &mut Vec<u8>, tr: &mut LeafTra
         }
     }
     match (s, v) {
-        (RS::Ref { full, .. }, _) => encode_t(v, &defs[full], defs, out, tr),
+        (RS::Ref { full, .. }, _) => encode_t(v, &defs[full.trim_start_matches('.')], defs, out, tr),
         (RS::Logical(_, base), _) => encode_t(v, base, defs, out, &mut None),
         (RS::Null, RV::Null) => {}
         (RS::Boolean, RV::Bool(b)) => out.push(*b as u8),
@@ -141,7 +141,7 @@ pub fn decode(s: &RS, defs: &Defs, b: &[u8], p: &mut usize, budget: &mut i64) ->
         return None;
     }
     Some(match s {
-        RS::Ref { full, .. } => return decode(&defs[full], defs, b, p, budget),
+        RS::Ref { full, .. } => return decode(&defs[full.trim_start_matches('.')], defs, b, p, budget),
         RS::Logical(l, base) => {
             let v = decode(base, defs, b, p, budget)?;
             // content rules of logical types
